@@ -7,6 +7,9 @@ identical, except that (only when `e = true`, i.e. only below an `embedded` rewr
 Go code wrote as the bytes `a` (a valid message with records `ra`) appears in the specification with the CANONICAL
 re-encoding `encRecs rb` of the corresponding records.  `Sim false` is equality.
 
+`mergeOccurrences_valid` / `mergeInput_payrel`: on a valid input the value the Go loop hands to the rewriter of a first
+occurrence is the specification's payload (`specPayloadM`), for `embeddedMerge` slots: all pieces of the field.
+
 `all_claims`: simultaneous statement for `rewrite`, `rewriteMulti`, `rewriteLoop`, `rewriteAbsent`, by induction on
 the specification's fuel.
 -/
@@ -27,6 +30,13 @@ theorem specRw_embedded (f number : Nat) (rs : List (Nat × SRw)) (p : Bytes) :
       (parse (p.length + 1) p).bind fun recs => (specMsg f rs recs []).bind fun body =>
         if body.isEmpty then some [] else some [(number, .len (ProtoWire.encRecs body))] := by
   simp only [specRw, ProtoWire.encRecs, List.flatMap_def]; rfl
+theorem specRw_embeddedMerge (f number : Nat) (rs : List (Nat × SRw)) (p : Bytes) :
+    specRw (f + 1) (.embeddedMerge number rs) p =
+      (parse (p.length + 1) p).bind fun recs => (specMsg f rs recs []).bind fun body =>
+        if body.isEmpty then some [] else some [(number, .len (ProtoWire.encRecs body))] := by
+  simp only [specRw, ProtoWire.encRecs, List.flatMap_def]; rfl
+theorem specRw_replacement (f : Nat) (r : SRw) (p : Bytes) : specRw (f + 1) (.replacement r) p = specRw f r [] := by
+  simp only [specRw]
 theorem specMulti_zero (rs : List SRw) (p : Bytes) : specMulti 0 rs p = none := by simp [specMulti]
 theorem specMulti_nil (f : Nat) (p : Bytes) : specMulti (f + 1) [] p = some [] := by simp [specMulti]
 theorem specMulti_cons (f : Nat) (r : SRw) (rs : List SRw) (p : Bytes) :
@@ -36,18 +46,26 @@ theorem specMsg_zero (rs : List (Nat × SRw)) (recs : List (Nat × WireVal)) (se
     specMsg 0 rs recs seen = none := by simp [specMsg]
 theorem specMsg_nil (f : Nat) (rs : List (Nat × SRw)) (seen : List Nat) :
     specMsg (f + 1) rs [] seen = specAbsent f (rs.filter fun p => !seen.contains p.1) := by simp [specMsg]
+/-- the payload the specification hands to the rewriter `r` of field `n` at its first occurrence `(n, w)`, `rest` being
+the records behind it: an `embeddedMerge` rewriter of a length-delimited record sees all the pieces -/
+def specPayloadM (r : SRw) (n : Nat) (w : WireVal) (rest : List (Nat × WireVal)) : Bytes :=
+  match r, w with
+  | .embeddedMerge .., .len _ => specPayload w ++ laterPieces n rest
+  | _, _ => specPayload w
+
 theorem specMsg_cons (f : Nat) (rs : List (Nat × SRw)) (n : Nat) (w : WireVal) (rest : List (Nat × WireVal))
     (seen : List Nat) :
     specMsg (f + 1) rs ((n, w) :: rest) seen =
       match lookupRw rs n with
       | some r =>
         if seen.contains n then specMsg f rs rest seen
-        else (specRw f r (specPayload w)).bind fun a => (specMsg f rs rest (n :: seen)).bind fun b => some (a ++ b)
+        else (specRw f r (specPayloadM r n w rest)).bind fun a =>
+          (specMsg f rs rest (n :: seen)).bind fun b => some (a ++ b)
       | none => (specMsg f rs rest seen).map ((n, w) :: ·) := by
   simp only [specMsg]
   cases lookupRw rs n with
   | none => simp only []; cases specMsg f rs rest seen <;> rfl
-  | some r => cases w <;> rfl
+  | some r => cases r <;> cases w <;> rfl
 theorem specAbsent_zero (rs : List (Nat × SRw)) : specAbsent 0 rs = none := by simp [specAbsent]
 theorem specAbsent_nil (f : Nat) : specAbsent (f + 1) [] = some [] := by simp [specAbsent]
 theorem specAbsent_cons (f i : Nat) (r : SRw) (rs : List (Nat × SRw)) :
@@ -254,6 +272,95 @@ theorem step_absent (N : Nat) (ih : ∀ sf, sf ≤ N → AllClaims sf) : ClaimAb
 
 /-! ### the loop -/
 
+theorem laterPieces_nil (n : Nat) : laterPieces n [] = [] := by simp [laterPieces]
+
+theorem laterPieces_cons_len (n k : Nat) (b : Bytes) (rest : List (Nat × WireVal)) :
+    laterPieces n ((k, .len b) :: rest) = if k == n then b ++ laterPieces n rest else laterPieces n rest := by
+  simp [laterPieces]
+
+theorem laterPieces_cons_other (n k : Nat) (w : WireVal) (rest : List (Nat × WireVal)) (h : wireNum w ≠ 2) :
+    laterPieces n ((k, w) :: rest) = laterPieces n rest := by
+  cases w <;> simp [laterPieces, wireNum] at h ⊢
+
+/-- **`mergeOccurrences` on a valid rest**: `v` followed by the payloads of the length-delimited records numbered `n`
+among the records of `m` — the specification's `laterPieces` -/
+theorem mergeOccurrences_valid (n : Nat) : ∀ (k : Nat) (m : Bytes) (rest : List (Nat × WireVal)) (v : Bytes),
+    Valid m rest → m.length ≤ k → mergeOccurrences k n v m = v ++ laterPieces n rest := by
+  intro k
+  induction k with
+  | zero =>
+    intro m rest v hm hk
+    have : m = [] := by cases m with
+      | nil => rfl
+      | cons => simp at hk
+    subst this
+    rw [hm.nil_inv, mergeOccurrences_nil, laterPieces_nil, List.append_nil]
+  | succ k ih =>
+    intro m rest v hm hk
+    by_cases hne : m = []
+    · subst hne
+      rw [hm.nil_inv, mergeOccurrences_nil, laterPieces_nil, List.append_nil]
+    · obtain ⟨pre, m', n', w', t', v', tl, e1, e2, hm', tok⟩ := hm.first hne
+      have hpre := tok.len_pre
+      have hlen : m'.length ≤ k := by
+        rw [e1] at hk; simp only [List.length_append] at hk; omega
+      have hfield : parseField m = .ok (n', t', v', m') := by rw [e1]; exact tok.field_pre m'
+      rw [mergeOccurrences_step k n v m hne n' t' v' m' hfield, ih m' tl _ hm' hlen, e2]
+      have hwt := tok.wt
+      have hpe := tok.pay_exact
+      cases w' with
+      | len b =>
+        simp only [wireNum] at hwt
+        simp only [PayBytes] at hpe
+        subst hwt hpe
+        rw [laterPieces_cons_len]
+        by_cases hnn : (n' == n) = true
+        · simp [hnn]
+        · simp [hnn]
+      | varint x =>
+        simp only [wireNum] at hwt; subst hwt
+        rw [laterPieces_cons_other n n' _ tl (by simp [wireNum])]; simp
+      | i64 x =>
+        simp only [wireNum] at hwt; subst hwt
+        rw [laterPieces_cons_other n n' _ tl (by simp [wireNum])]; simp
+      | i32 x =>
+        simp only [wireNum] at hwt; subst hwt
+        rw [laterPieces_cons_other n n' _ tl (by simp [wireNum])]; simp
+
+/-- what the Go loop hands to the rewriter of the first occurrence is the specification's payload (up to the verbatim
+varint token for a VARINT record): in particular for `embddedRewriter{merge: true}` both see ALL pieces of the field -/
+theorem mergeInput_payrel (r : Rw) {pre : Bytes} {n : Nat} {w : WireVal} {t : Nat} {v : Bytes}
+    (tok : RecTok pre n w t v) {m : Bytes} {rest : List (Nat × WireVal)} (hm : Valid m rest) :
+    PayRel (mergeInput r n t v m) (specPayloadM (toSpec r) n w rest) := by
+  cases r with
+  | embeddedMerge number len rs =>
+    have hwt := tok.wt
+    have hpe := tok.pay_exact
+    cases w with
+    | len b =>
+      simp only [wireNum] at hwt
+      simp only [PayBytes] at hpe
+      subst hwt hpe
+      simp only [mergeInput, toSpec, specPayloadM, specPayload]
+      exact Or.inl (mergeOccurrences_valid n m.length m rest v hm (Nat.le_refl _))
+    | varint x =>
+      simp only [wireNum] at hwt; subst hwt
+      simp only [mergeInput, toSpec, specPayloadM]
+      exact tok.pay
+    | i64 x =>
+      simp only [wireNum] at hwt; subst hwt
+      simp only [mergeInput, toSpec, specPayloadM]
+      exact tok.pay
+    | i32 x =>
+      simp only [wireNum] at hwt; subst hwt
+      simp only [mergeInput, toSpec, specPayloadM]
+      exact tok.pay
+  | raw b => simp only [mergeInput, toSpec, specPayloadM]; exact tok.pay
+  | multi rs => simp only [mergeInput, toSpec, specPayloadM]; exact tok.pay
+  | message len rs => simp only [mergeInput, toSpec, specPayloadM]; exact tok.pay
+  | embedded number len rs => simp only [mergeInput, toSpec, specPayloadM]; exact tok.pay
+  | replacement r => simp only [mergeInput, toSpec, specPayloadM]; exact tok.pay
+
 theorem untempl_cons_none (rs : List (Nat × Rw)) (n : Nat) (w : WireVal) (rest : List (Nat × WireVal))
     (h : getRw rs n = none) : untempl rs ((n, w) :: rest) = (n, w) :: untempl rs rest := by
   simp [untempl, h]
@@ -328,7 +435,9 @@ theorem step_loop (N : Nat) (ih : ∀ sf, sf ≤ N → AllClaims sf) : ClaimLoop
         obtain ⟨b, hb, hs⟩ := Option.bind_eq_some_iff.mp hs
         simp only [Option.some.injEq] at hs
         subst hs
-        obtain ⟨oa, ⟨recsa, hva, hsa⟩, hfa⟩ := (ih N (Nat.le_refl _)).1 e r v (specPayload w) a (hrok hok).2 tok.pay
+        have hml := mergeInput_length_le r n t v m
+        obtain ⟨oa, ⟨recsa, hva, hsa⟩, hfa⟩ := (ih N (Nat.le_refl _)).1 e r (mergeInput r n t v m)
+          (specPayloadM (toSpec r) n w rest0) a (hrok hok).2 (mergeInput_payrel r tok hm)
           (fun h => he (hE h)) (mul_lt_of_le hsz (by omega) (by omega)) ha
         obtain ⟨o1, seen', recs1, res1, res2, sf', hr, hv1, hs1, hsub, hle, habs, hfl⟩ :=
           (ih N (Nat.le_refl _)).2.2.1 e len rs m rest0 (n :: seen) b hok hm he hszm hb
@@ -378,6 +487,73 @@ theorem payrel_valid {v p : Bytes} {recs : List (Nat × WireVal)} (hpay : PayRel
 
 /-! ### rewrite -/
 
+/-- the common part of `embddedRewriter.Rewrite` (`merge` or not): rewrite the payload as a message, splice `tag, length`
+in front unless the result is empty -/
+theorem emb_core (N : Nat) (ih : ∀ sf, sf ≤ N → AllClaims sf) (number len : Nat) (rs : List (Nat × Rw)) (v : Bytes)
+    (recs0 body recs : List (Nat × WireVal)) (hn0 : 0 < number) (hn1 : number < 2 ^ 61) (hok : entsOK len rs = true)
+    (hsz : (40 + sizeMEnts rs) * (v.length + 1) < 2 ^ 64) (hp : Valid v recs0)
+    (hbody : specMsg N (toSpecEnts rs) recs0 [] = some body)
+    (hs3 : (if body.isEmpty then some [] else some [(number, WireVal.len (ProtoWire.encRecs body))]) = some recs) :
+    ∃ out, Out true out recs ∧ ∀ f, v.length + 2 + rs.length + fuelDEnts rs ≤ f →
+      ((rewrite f (.message len rs) v).bind fun body =>
+        if body.isEmpty then .ok []
+        else .ok (encodeVarint (BitVec.ofNat 64 (number * 8 + 2)) ++ encodeVarint (BitVec.ofNat 64 body.length)
+          ++ body)) = .ok out := by
+  have hsz' : (20 + sizeMEnts rs) * (v.length + 1) < 2 ^ 64 := mul_lt_of_le hsz (by omega) (Nat.le_refl _)
+  obtain ⟨o, recs', hv', hs', _, hfo⟩ := msg_core N ih true len rs v recs0 body hok hp (fun _ => rfl) hsz' hbody
+  by_cases hb : body = []
+  · subst hb
+    simp only [List.isEmpty_nil, if_true, Option.some.injEq] at hs3
+    subst hs3
+    have : recs' = [] := by
+      have := hs'.length_eq
+      cases recs' with
+      | nil => rfl
+      | cons => simp at this
+    subst this
+    have ho := hv'.eq_nil
+    subst ho
+    refine ⟨[], Out.nil true, ?_⟩
+    intro f hf
+    rw [hfo f hf]
+    rfl
+  · have hbe : body.isEmpty = false := by
+      cases body with
+      | nil => exact absurd rfl hb
+      | cons => rfl
+    simp only [hbe, Bool.false_eq_true, if_false, Option.some.injEq] at hs3
+    subst hs3
+    have hone : o ≠ [] := by
+      intro h0; subst h0
+      have := hv'.recs_nil; subst this
+      have := hs'.length_eq
+      cases body with
+      | nil => exact hb rfl
+      | cons => simp at this
+    have hoe : o.isEmpty = false := by
+      cases o with
+      | nil => exact absurd rfl hone
+      | cons => rfl
+    -- the size of the body, from the general size bound
+    have hosz : o.length < 2 ^ 64 := by
+      have hrun := hfo (v.length + 2 + rs.length + fuelDEnts rs) (Nat.le_refl _)
+      have := rewrite_size _ _ _ _ hrun
+      simp only [sizeM] at this
+      omega
+    have htag : number * 8 + 2 < 2 ^ 64 := by omega
+    have tok := rectok_len (leb128 (number * 8 + 2)) (leb128 o.length) o (number * 8 + 2)
+      (vtok_leb128 _ htag) (vtok_leb128 _ hosz) (by omega) (by omega)
+    have e8 : (number * 8 + 2) / 8 = number := by omega
+    rw [e8] at tok
+    have hval := tok.valid_cons valid_nil
+    rw [List.append_nil] at hval
+    refine ⟨encodeVarint (BitVec.ofNat 64 (number * 8 + 2)) ++ encodeVarint (BitVec.ofNat 64 o.length) ++ o,
+      ⟨[(number, .len o)], ?_, Sim.emb number o hv' hs' (Sim.nil true)⟩, ?_⟩
+    · rw [ProtoWire.encodeVarint_ofNat _ htag, ProtoWire.encodeVarint_ofNat _ hosz]; exact hval
+    · intro f hf
+      rw [hfo f hf]
+      simp only [Res.bind, hoe, Bool.false_eq_true, if_false]
+
 theorem step_rw (N : Nat) (ih : ∀ sf, sf ≤ N → AllClaims sf) : ClaimRw (N + 1) := by
   intro e r v p recs hok hpay he hsz hs
   cases r with
@@ -424,68 +600,44 @@ theorem step_rw (N : Nat) (ih : ∀ sf, sf ≤ N → AllClaims sf) : ClaimRw (N 
     have hetrue : e = true := he (by simp [hasEmb])
     subst hetrue
     simp only [sizeM] at hsz
-    have hsz' : (20 + sizeMEnts rs) * (v.length + 1) < 2 ^ 64 := mul_lt_of_le hsz (by omega) (Nat.le_refl _)
-    obtain ⟨o, recs', hv', hs', _, hfo⟩ := msg_core N ih true len rs v recs0 body hok.2 hp (fun _ => rfl) hsz' hbody
-    by_cases hb : body = []
-    · subst hb
-      simp only [List.isEmpty_nil, if_true, Option.some.injEq] at hs3
-      subst hs3
-      have : recs' = [] := by
-        have := hs'.length_eq
-        cases recs' with
-        | nil => rfl
-        | cons => simp at this
-      subst this
-      have ho := hv'.eq_nil
-      subst ho
-      refine ⟨[], Out.nil true, ?_⟩
-      intro fuel hf
-      simp only [fuelD] at hf
-      cases fuel with
-      | zero => omega
-      | succ f =>
-        rw [rewrite_embedded, hfo f (by omega)]
-        rfl
-    · have hbe : body.isEmpty = false := by
-        cases body with
-        | nil => exact absurd rfl hb
-        | cons => rfl
-      simp only [hbe, Bool.false_eq_true, if_false, Option.some.injEq] at hs3
-      subst hs3
-      have hone : o ≠ [] := by
-        intro h0; subst h0
-        have := hv'.recs_nil; subst this
-        have := hs'.length_eq
-        cases body with
-        | nil => exact hb rfl
-        | cons => simp at this
-      have hoe : o.isEmpty = false := by
-        cases o with
-        | nil => exact absurd rfl hone
-        | cons => rfl
-      -- the size of the body, from the general size bound
-      have hosz : o.length < 2 ^ 64 := by
-        have hrun := hfo (v.length + 2 + rs.length + fuelDEnts rs) (Nat.le_refl _)
-        have := rewrite_size _ _ _ _ hrun
-        simp only [sizeM] at this
-        omega
-      have htag : number * 8 + 2 < 2 ^ 64 := by omega
-      have tok := rectok_len (leb128 (number * 8 + 2)) (leb128 o.length) o (number * 8 + 2)
-        (vtok_leb128 _ htag) (vtok_leb128 _ hosz) (by omega) (by omega)
-      have e8 : (number * 8 + 2) / 8 = number := by omega
-      rw [e8] at tok
-      have hval := tok.valid_cons valid_nil
-      rw [List.append_nil] at hval
-      refine ⟨encodeVarint (BitVec.ofNat 64 (number * 8 + 2)) ++ encodeVarint (BitVec.ofNat 64 o.length) ++ o,
-        ⟨[(number, .len o)], ?_, Sim.emb number o hv' hs' (Sim.nil true)⟩, ?_⟩
-      · rw [ProtoWire.encodeVarint_ofNat _ htag, ProtoWire.encodeVarint_ofNat _ hosz]; exact hval
-      · intro fuel hf
-        simp only [fuelD] at hf
-        cases fuel with
-        | zero => omega
-        | succ f =>
-          rw [rewrite_embedded, hfo f (by omega)]
-          simp only [Res.bind, hoe, Bool.false_eq_true, if_false]
+    obtain ⟨out, hout, hfo⟩ := emb_core N ih number len rs v recs0 body recs hok.1.1 hok.1.2 hok.2 hsz hp hbody hs3
+    refine ⟨out, hout, ?_⟩
+    intro fuel hf
+    simp only [fuelD] at hf
+    cases fuel with
+    | zero => omega
+    | succ f => rw [rewrite_embedded]; exact hfo f (by omega)
+  | embeddedMerge number len rs =>
+    simp only [toSpec, specRw_embeddedMerge] at hs
+    obtain ⟨recs0, hp, hs2⟩ := Option.bind_eq_some_iff.mp hs
+    obtain ⟨body, hbody, hs3⟩ := Option.bind_eq_some_iff.mp hs2
+    have hvp := payrel_valid hpay hp
+    subst hvp
+    simp only [rwOK, Bool.and_eq_true, decide_eq_true_eq] at hok
+    have hetrue : e = true := he (by simp [hasEmb])
+    subst hetrue
+    simp only [sizeM] at hsz
+    obtain ⟨out, hout, hfo⟩ := emb_core N ih number len rs v recs0 body recs hok.1.1 hok.1.2 hok.2 hsz hp hbody hs3
+    refine ⟨out, hout, ?_⟩
+    intro fuel hf
+    simp only [fuelD] at hf
+    cases fuel with
+    | zero => omega
+    | succ f => rw [rewrite_embeddedMerge]; exact hfo f (by omega)
+  | replacement r =>
+    -- both sides restart from the empty input
+    simp only [toSpec, specRw_replacement] at hs
+    simp only [rwOK] at hok
+    simp only [hasEmb] at he
+    simp only [sizeM] at hsz
+    obtain ⟨o, ho, hfo⟩ := (ih N (Nat.le_refl _)).1 e r [] [] recs hok (Or.inl rfl) he
+      (mul_lt_of_le hsz (Nat.le_refl _) (by simp only [List.length_nil]; omega)) hs
+    refine ⟨o, ho, ?_⟩
+    intro fuel hf
+    simp only [fuelD] at hf
+    cases fuel with
+    | zero => omega
+    | succ f => rw [rewrite_replacement]; exact hfo f (by simp only [List.length_nil]; omega)
 
 /-! ### all together -/
 
